@@ -463,6 +463,8 @@ type diffEnv struct {
 	cover   func(args []string, priorType string, outcome string)
 	noState bool // skip state comparison
 	obsDB   int
+	// collisionBits: the case stores two names whose emulator hashes share this many low bits (signature refinement)
+	collisionBits int
 	// additional connections (index 1..) with their own model sessions; index 0 is cn/sess
 	cns      []*wire.Conn
 	sessions []*model.Session
@@ -624,6 +626,10 @@ func (d *diffEnv) stepOn(ci int, args []string) (resp.Value, bool) {
 		sig := fmt.Sprintf("%s/%s/reply/%s/%s-vs-%s", d.monitor, tag, prior, exp.Class(), model.Class(got))
 		if s2 := refineReplySig(args, got); s2 != "" {
 			sig = "model/" + s2
+			stepSig = sig
+		}
+		if d.collisionBits >= 31 && got.IsError() && strings.Contains(string(got.Str), "internal error") {
+			sig = "model/dict/31-low-hash-bits-shared-cannot-be-stored"
 			stepSig = sig
 		}
 		if strings.EqualFold(args[0], "EXEC") && sess.LastAbort != "" && got.Kind == '*' && !got.Null {
